@@ -28,8 +28,21 @@ def phases(trace, case):
     ends it (the final 1m add of the minute / the batch insert of the chunk)."""
     fast = bool(case.get('fast'))
     out = {}
+    # the simulator re-publishes the minute's candle between creating a force-close (liquidation) order and executing it: those
+    # candle events belong to the liquidation step, not to the matching phase
+    skip = set()
+    pending = None
+    for idx, ev in enumerate(trace):
+        if ev[0] == 'submit' and ev[3] == 'MARKET' and ev[7] and ev[9] and abs(1 - ev[6] / ev[9]) > 0.00015 and not ev[10]:
+            pending = ev[1]
+        elif ev[0] == 'exec' and ev[1] == pending:
+            pending = None
+        elif pending is not None and ev[0] == 'candle':
+            skip.add(idx)
     if not fast:
         for idx, ev in enumerate(trace):
+            if idx in skip:
+                continue
             if ev[0] == 'candle' and ev[2] == '1m':
                 m = S.minute_of(ev[3])
                 if m < 0:
@@ -42,6 +55,8 @@ def phases(trace, case):
         return {s: [tuple(v) for k, v in sorted(p.items())] for s, p in out.items()}
     step = chunk_step(case)
     for idx, ev in enumerate(trace):
+        if idx in skip:
+            continue
         if ev[0] == 'candle' and ev[2] == '1m':
             m = S.minute_of(ev[3])
             if m < 0:
